@@ -15,15 +15,15 @@ import (
 // Run parameters come from the driver through the environment.
 var (
 	envTier     = getenv("VERIF_TIER", "quick")
-	envOut      = os.Getenv("VERIF_OUT")                                  // result file of this shard
-	envReplays  = getenv("VERIF_REPLAY_DIR", "/verif/replays")            // where failing cases are saved
-	envKnown    = getenv("VERIF_KNOWN", "/verif/known_findings.json")     // known findings (read-only)
-	envShard    = atoi(getenv("VERIF_SHARD", "0"))                        // shard number
-	envShards   = atoi(getenv("VERIF_SHARDS", "1"))                       // number of shards
-	envSeed     = atoi(getenv("VERIF_SEED", "1"))                         // user seed
-	envScale    = atof(getenv("VERIF_SCALE", "1"))                        // multiplies case counts
-	envDeadline = atoi(getenv("VERIF_DEADLINE", "0"))                     // unix time after which cases are skipped
-	envReplay   = os.Getenv("VERIF_REPLAY")                               // replay this file instead of generating
+	envOut      = os.Getenv("VERIF_OUT")                              // result file of this shard
+	envReplays  = getenv("VERIF_REPLAY_DIR", "/verif/replays")        // where failing cases are saved
+	envKnown    = getenv("VERIF_KNOWN", "/verif/known_findings.json") // known findings (read-only)
+	envShard    = atoi(getenv("VERIF_SHARD", "0"))                    // shard number
+	envShards   = atoi(getenv("VERIF_SHARDS", "1"))                   // number of shards
+	envSeed     = atoi(getenv("VERIF_SEED", "1"))                     // user seed
+	envScale    = atof(getenv("VERIF_SCALE", "1"))                    // multiplies case counts
+	envDeadline = atoi(getenv("VERIF_DEADLINE", "0"))                 // unix time after which cases are skipped
+	envReplay   = os.Getenv("VERIF_REPLAY")                           // replay this file instead of generating
 )
 
 func getenv(k, d string) string {
